@@ -108,8 +108,6 @@ def gen(rng, hazards=()):
             bottom = text_for(cols)
             parts = []
             form = rng.choice(["both", "top", "bottom-kw", "both-kw"])
-            if rows < 2 and "message-1-row" not in hz:
-                form = "top"
             if form == "both":
                 parts = [arg(top), arg(bottom)]
             elif form == "top":
@@ -131,18 +129,18 @@ def gen(rng, hazards=()):
             row = rng.randint(0, rows - 1)
             mx = rng.choice([100, 100, 10, 7, 255, 1])
             width = rng.choice([None, None, 1, cols, max(1, cols // 2), rng.randint(1, cols)])
-            if "progress-width" in hz:
-                width = rng.choice([0, -3, cols + 5])
-            if "progress-max" in hz:
-                mx = rng.choice([0, -5])
-            w_eff = cols if width is None else width
+            if rng.random() < 0.12:
+                width = rng.choice([0, -3, cols + 5])   # the host clamps the width into 1..cols
+            if rng.random() < 0.08:
+                mx = rng.choice([0, -5])                # the host draws an empty bar
+            w_eff = cols if width is None else max(1, min(cols, width))
             if rng.random() < 0.6:
                 # exact fraction: value*width % max == 0
-                cands = [v for v in range(0, mx + 1) if (v * w_eff) % mx == 0] if mx > 0 else [0]
+                cands = [v for v in range(0, mx + 1) if (v * w_eff) % mx == 0] if mx > 0 else [0, 3]
                 val = rng.choice(cands)
             else:
                 val = rng.choice([-5, 0, mx, mx + 10, rng.randint(0, max(1, mx))])
-            exact = mx > 0 and ((max(0, min(val, mx)) * w_eff) % mx == 0)
+            exact = mx <= 0 or ((max(0, min(val, mx)) * w_eff) % mx == 0)
             label = rng.choice([None, None, "Load", "L", "progress label"])
             style = rng.choice([None, "block", "hash", "pipe", "dot"])
             parts = [arg(row), arg(val)]
@@ -360,7 +358,7 @@ def judge(rep, res, hazard=None):
         rep.sample({"script": res["script"][-700:], "device_snapshots": res["sample"]})
 
 
-HAZARD_FINDING = {"message-1-row": "KF-lcd-message-bottom-on-1-row", "progress-width": "KF-lcd-progress-nonpositive-width", "progress-max": "KF-lcd-progress-nonpositive-max"}
+HAZARD_FINDING = {}
 
 
 def main() -> int:
